@@ -39,6 +39,22 @@ def search():
             return f"unite_values(a, a) != a for a = {a}"
         if not same_set(leaves(unite_values(a, NO_RETURN_VALUE)), leaves(a)) or not same_set(leaves(unite_values(NO_RETURN_VALUE, a)), leaves(a)):
             return f"Never is not an identity for {a}: {unite_values(a, NO_RETURN_VALUE)}"
+    from pyanalyze.value import TypedDictValue, TypedDictEntry, TypedValue, KnownValue
+    reordered = [(TypedDictValue({"x": TypedDictEntry(TypedValue(int)), "y": TypedDictEntry(TypedValue(str))}), TypedDictValue({"y": TypedDictEntry(TypedValue(str)), "x": TypedDictEntry(TypedValue(int))})),
+                 (MultiValuedValue([U[5], U[6]]), MultiValuedValue([U[5], U[6]]))]
+    for a, b in list(itertools.product(U, repeat=2)) + reordered:
+        if a == b:
+            try:
+                ha, hb = hash(a), hash(b)
+                for x in (a, b):
+                    if isinstance(x, KnownValue):
+                        hash(x.val)   # literals of unhashable objects hash by identity (the union code compares them with == explicitly): not claimed
+            except TypeError:
+                continue
+            if ha != hb:
+                return f"equal values hash differently: {a!r} == {b!r}, so a union of the two keeps both and {{a, b}} has two elements"
+            if len(leaves(unite_values(a, b))) != len(leaves(a)):
+                return f"unite_values of two equal values keeps both: unite_values({a}, {b}) = {unite_values(a, b)}"
     for a, b in itertools.product(U, repeat=2):
         u = unite_values(a, b)
         if isinstance(u, MultiValuedValue) and any(isinstance(m, MultiValuedValue) for m in u.vals):
@@ -100,11 +116,13 @@ def search_subst():
                 return f"substitute_typevars({m}) is not the identity on {v!r} (no type variables): got {r!r}"
     opened = [tv, GenericValue(list, [tv]), SequenceValue(tuple, [(False, tv), (True, uv)]), MultiValuedValue([tv, TypedValue(int)]),
               SubclassValue(tv, exactly=True), SubclassValue(tv), AnnotatedValue(tv, [uv]), GenericValue(dict, [tv, uv]),
-              TypedDictValue({"a": TypedDictEntry(tv, required=False)}), DictIncompleteValue(dict, [KVPair(tv, uv, is_required=False)])]
+              TypedDictValue({"a": TypedDictEntry(tv, required=False)}), DictIncompleteValue(dict, [KVPair(tv, uv, is_required=False)]),
+              TypedDictValue({"first": TypedDictEntry(tv)}, extra_keys=uv), TypedDictValue({}, extra_keys=GenericValue(list, [tv]), extra_keys_readonly=True)]
     m = {T: TypedValue(int), U: TypedValue(str)}
     for v in opened:
         r = v.substitute_typevars(m)
-        if any(isinstance(w, TypeVarValue) for w in r.walk_values()):
+        parts = list(r.walk_values()) + (list(r.extra_keys.walk_values()) if getattr(r, "extra_keys", None) is not None else [])
+        if any(isinstance(w, TypeVarValue) for w in parts):
             return f"substitute_typevars left a type variable in {r!r} (from {v!r})"
         if type(r) is not type(v) and not isinstance(v, (TypeVarValue, MultiValuedValue)):
             return f"substitute_typevars changed the kind of {v!r}: {r!r}"
